@@ -16,6 +16,10 @@ import (
 	"verifharness/wl"
 )
 
+// cheapMix weights the compressions for the per-byte fault loops: every lz4 read allocates a 4 MiB block
+// buffer and every zstd read builds a decoder, which makes such files ~10x dearer per injected fault.
+var cheapMix = []string{"", "", "", "", "zstd", "lz4"}
+
 // genSmallFile draws workloads whose files stay small enough to enumerate faults per byte.
 func genSmallFile(cp wl.CfgParams, maxMsgs, maxPayload int, attach bool) func(t *rapid.T) WKCase {
 	return func(t *rapid.T) WKCase {
@@ -244,5 +248,5 @@ func checkC09(c WKCase, st *stats.Collector) error {
 }
 
 func TestC09(t *testing.T) {
-	pk.Run(t, "C09", genSmallFile(wl.CfgParams{NoCustom: true, NoSkipMagic: true}, 14, 60, true), checkC09)
+	pk.Run(t, "C09", genSmallFile(wl.CfgParams{NoCustom: true, NoSkipMagic: true, Compressions: cheapMix}, 14, 60, true), checkC09)
 }
